@@ -381,6 +381,30 @@ PROPS["C17"] = {
     "assumptions": ["hooks (build tag verif): VM.VerifSP, SymbolTable.VerifState, read-only"],
 }
 
+PROPS["C19"] = {
+    "pkg": "p19",
+    "needs_evy": True,
+    "level": "exploration",
+    "level_text": "~1.6*10^4 (quick) / ~3*10^5 (thorough) generated histories of 0-40 graphics calls (all shapes and all pen-style calls, "
+                  "degenerate numbers, markup-laden and empty strings) are drawn through the real SVG platform; the document is parsed "
+                  "back with a strict XML parser (single svg root in the SVG namespace, 0 0 1000 1000 viewBox), inherited presentation "
+                  "attributes are resolved root -> g -> element into a flat list, and that list is compared shape by shape with a pen model "
+                  "kept by the harness: kind, geometry (x10, y flipped, tolerance 1e-9), stroke, fill, width, dash, line cap, text content "
+                  "and font properties in effect at the time of the call. A sample is also produced with `evy run --svg-out` and must be "
+                  "byte-identical; degenerate gridn spacings are probed through the binary under a time and memory limit.",
+    "level_note": "Initial pen properties are not guessed: a shape drawn with an untouched property must resolve to what a baseline "
+                  "shape drawn before any style call resolves to. All wrong properties of a history are reported, so the five open "
+                  "findings (F42-F46) do not mask other differences in the same history.",
+    "technique": "model-based property testing: pen-state model vs SVG parsed back and flattened (rapid, encoding/xml strict)",
+    "tests": [
+        {"name": "TestProp", "quick": {"shards": 8, "checks": 2000}, "thorough": {"shards": 16, "checks": 20000}},
+        {"name": "TestGridnDegenerate", "rapid": False, "quick": {"shards": 1}, "thorough": {"shards": 1}},
+    ],
+    "rule": "cases: histories of graphics calls. Non-trivial = at least two style changes and at least two shapes; distinct by the "
+            "sequence of command kinds and the rendered source.",
+    "assumptions": ["gridn line width is not asserted (documentation gives 0.1/0.2 units, SVG default applies)"],
+}
+
 NOT_APPLICABLE = {}
 
 ENGINES = [
